@@ -136,10 +136,12 @@ def scc_replay(res):
 
 
 # ------------------------------------------------------------------ C13
-def reach_task(n, fold, what):
+def reach_task(n, fold, what, u=None):
     """get_reachable_set_from / get_reversed_graph / get_subgraph / clone on all graphs with node presence,
     all node subsets (which may name non-nodes). Run WITHOUT functional reduction by default."""
     import pyModelChecking.graph as G
+    u = list(u) if u else list(range(n))          # the n node values; `out` is a value that is never a node
+    out = n if u == list(range(n)) else 'zz'
     see.reset()
     t0 = time.time()
     names = enames(n) + ['x_%d' % i for i in range(n + 1)]
@@ -152,60 +154,60 @@ def reach_task(n, fold, what):
     vm.bounds = {'DiGraph.get_reachable_set_from': n}
     ctx, fr = harness_ctx(vm)
     e = ematrix(n, {})
-    g = ctx.call(G.DiGraph, [], {'V': range(n), 'E': GSeq([(e[i][j], (i, j)) for i in range(n) for j in range(n)])})
+    g = ctx.call(G.DiGraph, [], {'V': list(u), 'E': GSeq([(e[i][j], (u[i], u[j])) for i in range(n) for j in range(n)])})
     nxt = g.attrs['_next']
-    snap = {(i, j): fold_b(nxt.vals[i], lambda s: s.get(j)) for i in range(n) for j in range(n)}
-    snap_obj = {i: nxt.vals[i] for i in range(n)}
+    snap = {(i, j): fold_b(nxt.vals[u[i]], lambda s: s.get(u[j])) for i in range(n) for j in range(n)}
+    snap_obj = {i: nxt.vals[u[i]] for i in range(n)}
     x = [var('x_%d' % i) for i in range(n + 1)]          # index n = a value that is not a node
     X = MSet()
     for i in range(n + 1):
-        X.put(i, x[i])
+        X.put((u + [out])[i], x[i])
     impl, bad, twin = [], [], True
     shared = False
 
     def unchanged():
-        ch = [b_xor(fold_b(nxt.vals[i], lambda s: s.get(j)), snap[i, j]) for i in range(n) for j in range(n)]
-        ch += [b_not(nxt.present[i]) for i in range(n)]
-        ch += [p for k, p in nxt.present.items() if k not in range(n)]
+        ch = [b_xor(fold_b(nxt.vals[u[i]], lambda s: s.get(u[j])), snap[i, j]) for i in range(n) for j in range(n)]
+        ch += [b_not(nxt.present[u[i]]) for i in range(n)]
+        ch += [p for k, p in nxt.present.items() if k not in u]
         for i in range(n):
-            for (ga, s) in alts_of(nxt.vals[i]):
-                ch += [b_and(ga, b) for k, b in s.bits.items() if k not in range(n)]
+            for (ga, s) in alts_of(nxt.vals[u[i]]):
+                ch += [b_and(ga, b) for k, b in s.bits.items() if k not in u]
         return ch
     wants = None
     if what == 'reach':
         # precondition of the call: the start set holds nodes only (next() of a non-node raises by contract)
         xs = MSet()
         for i in range(n):
-            xs.put(i, x[i])
+            xs.put(u[i], x[i])
         R = ctx.call(ctx.getattr1(g, 'get_reachable_set_from'), [xs], {})
-        impl = [fold_b(R, lambda s: s.get(j)) for j in range(n)]
-        bad += [b for k, b in R.bits.items() if k not in range(n)] if isinstance(R, MSet) else []
+        impl = [fold_b(R, lambda s: s.get(u[j])) for j in range(n)]
+        bad += [b for k, b in R.bits.items() if k not in u] if isinstance(R, MSet) else []
         bad.append(fold_b(R, lambda s: s is xs))            # result must be a new object, not the argument
         twin = b_and(impl[n - 1], b_not(x[n - 1]))
     elif what == 'reverse':
         r = ctx.call(ctx.getattr1(g, 'get_reversed_graph'), [], {})
         rv = GView(r)
-        impl = [rv.member(i, j) for i in range(n) for j in range(n)]
-        bad += [b_not(rv.node(i)) for i in range(n)] + [rv.foreign_keys(range(n)), rv.foreign_members(range(n))]
+        impl = [rv.member(u[i], u[j]) for i in range(n) for j in range(n)]
+        bad += [b_not(rv.node(u[i])) for i in range(n)] + [rv.foreign_keys(u), rv.foreign_members(u)]
         rr = ctx.call(sfold(r, lambda o: ctx.getattr1(o, 'get_reversed_graph')), [], {})
         rrv = GView(rr)
-        impl += [rrv.member(i, j) for i in range(n) for j in range(n)]
-        bad += [b_not(rrv.node(i)) for i in range(n)] + [rrv.foreign_keys(range(n)), rrv.foreign_members(range(n))]
+        impl += [rrv.member(u[i], u[j]) for i in range(n) for j in range(n)]
+        bad += [b_not(rrv.node(u[i])) for i in range(n)] + [rrv.foreign_keys(u), rrv.foreign_members(u)]
         shared = any(q is o for q in rv.set_objects() + rrv.set_objects() for o in snap_obj.values()) or any(d is nxt for d in rv.dict_objects() + rrv.dict_objects())
         twin = b_and(impl[1], b_not(e[0][1]))
     elif what == 'subgraph':
         s = ctx.call(ctx.getattr1(g, 'get_subgraph'), [X], {})
         sv = GView(s)
-        impl = [sv.node(i) for i in range(n)]
-        impl += [sv.member(i, j) for i in range(n) for j in range(n)]
-        bad += [sv.foreign_keys(range(n)), sv.foreign_members(range(n)), b_not(sv.defined)]
+        impl = [sv.node(u[i]) for i in range(n)]
+        impl += [sv.member(u[i], u[j]) for i in range(n) for j in range(n)]
+        bad += [sv.foreign_keys(u), sv.foreign_members(u), b_not(sv.defined)]
         shared = any(q is o for q in sv.set_objects() for o in snap_obj.values()) or any(d is nxt for d in sv.dict_objects())
         twin = b_and(impl[0], b_not(impl[1]))
     elif what == 'clone':
         c = ctx.call(ctx.getattr1(g, 'clone'), [], {})
         cv = GView(c)
-        impl = [cv.member(i, j) for i in range(n) for j in range(n)]
-        bad += [b_not(cv.node(i)) for i in range(n)] + [cv.foreign_keys(range(n)), cv.foreign_members(range(n))]
+        impl = [cv.member(u[i], u[j]) for i in range(n) for j in range(n)]
+        bad += [b_not(cv.node(u[i])) for i in range(n)] + [cv.foreign_keys(u), cv.foreign_members(u)]
         shared = any(x is g for _, x in alts_of(c)) or any(d is nxt for d in cv.dict_objects()) or any(q is o for q in cv.set_objects() for o in snap_obj.values())
         # independence: mutate the clone through the real API and directly, the original must not move
         ctx.call(sfold(c, lambda o: ctx.getattr1(o, 'add_node')), ['fresh'], {})
@@ -218,14 +220,14 @@ def reach_task(n, fold, what):
         # independence of the results from later changes of the receiver: G is modified through its own API, then the
         # (old) reversed graph is reversed again and must still give the OLD graph
         ctx.call(ctx.getattr1(g, 'add_node'), ['fresh'], {})
-        ctx.call(ctx.getattr1(g, 'add_edge'), ['fresh', 0], {})
-        ctx.call(ctx.getattr1(g, 'add_edge'), [0, 'fresh2'], {})
+        ctx.call(ctx.getattr1(g, 'add_edge'), ['fresh', u[0]], {})
+        ctx.call(ctx.getattr1(g, 'add_edge'), [u[0], 'fresh2'], {})
         rr2 = ctx.call(sfold(r, lambda o: ctx.getattr1(o, 'get_reversed_graph')), [], {})
         rr2v = GView(rr2)
-        impl += [rr2v.member(i, j) for i in range(n) for j in range(n)]
-        bad += [b_not(rr2v.node(i)) for i in range(n)] + [rr2v.foreign_keys(range(n)), rr2v.foreign_members(range(n))]
+        impl += [rr2v.member(u[i], u[j]) for i in range(n) for j in range(n)]
+        bad += [b_not(rr2v.node(u[i])) for i in range(n)] + [rr2v.foreign_keys(u), rr2v.foreign_members(u)]
         rv2 = GView(r)
-        bad += [rv2.foreign_keys(range(n)), rv2.foreign_members(range(n))]       # the first reversed graph did not move either
+        bad += [rv2.foreign_keys(u), rv2.foreign_members(u)]       # the first reversed graph did not move either
     bad.append(exc_guard(fr))
     bad.append(unwind_guard(vm))
     t1 = time.time()
@@ -244,7 +246,7 @@ def reach_task(n, fold, what):
     else:
         want = [e2[i][j] for i in range(n) for j in range(n)]
     r = d.differ(impl, want, bad)
-    res = dict(kind=what, n=n, fold=fold, verdict=r, encode_s=round(t1 - t0, 2), shared=bool(shared), exc=exc_kinds(fr),
+    res = dict(kind=what, n=n, fold=fold, univ=u, out=out, verdict=r, encode_s=round(t1 - t0, 2), shared=bool(shared), exc=exc_kinds(fr),
                loops=loops, encoded=encoded, unwind_open=len(vm.unwind))
     if r == 'sat':
         res['model'] = d.differ_model(impl, want, bad)
@@ -258,33 +260,35 @@ def reach_task(n, fold, what):
 
 C13_REPLAY = '''
 from pyModelChecking.graph import DiGraph
-n = %(n)d; E = %(E)r; X = %(X)r; what = %(what)r
-G = DiGraph(V=range(n), E=E)
+n = %(n)d; u = %(u)r; E = %(E)r; X = %(X)r; what = %(what)r
+G = DiGraph(V=list(u), E=E)
 before = {v: set(G.next(v)) for v in G.nodes()}
 bad = []
 if what == 'reach':
-    got = G.get_reachable_set_from(set(X))
+    X0 = set(X)
+    got = G.get_reachable_set_from(X0)
     want = set(X); ch = True
     while ch:
         ch = False
         for (a, b) in E:
             if a in want and b not in want: want.add(b); ch = True
     if got != want: bad.append('reachable set %%s, expected %%s' %% (got, want))
+    if got is X0: bad.append('the result is the argument object')
 elif what == 'reverse':
     r = G.get_reversed_graph()
-    if set(r.nodes()) != set(range(n)) or set(r.edges()) != {(b, a) for (a, b) in E}: bad.append('reversed graph %%s' %% r)
+    if set(r.nodes()) != set(u) or set(r.edges()) != {(b, a) for (a, b) in E}: bad.append('reversed graph %%s' %% r)
     rr = r.get_reversed_graph()
-    if set(rr.nodes()) != set(range(n)) or set(rr.edges()) != set(E): bad.append('double reversal %%s' %% rr)
-    G2 = DiGraph(V=range(n), E=E); r2 = G2.get_reversed_graph()
-    G2.add_node('fresh'); G2.add_edge('fresh', 0); G2.add_edge(0, 'fresh2')
+    if set(rr.nodes()) != set(u) or set(rr.edges()) != set(E): bad.append('double reversal %%s' %% rr)
+    G2 = DiGraph(V=list(u), E=E); r2 = G2.get_reversed_graph()
+    G2.add_node('fresh'); G2.add_edge('fresh', u[0]); G2.add_edge(u[0], 'fresh2')
     rr2 = r2.get_reversed_graph()
-    if set(rr2.nodes()) != set(range(n)) or set(rr2.edges()) != set(E): bad.append('reversing the reversed graph after the original was modified gives %%s' %% rr2)
+    if set(rr2.nodes()) != set(u) or set(rr2.edges()) != set(E): bad.append('reversing the reversed graph after the original was modified gives %%s' %% rr2)
 elif what == 'subgraph':
     s = G.get_subgraph(set(X))
-    if set(s.nodes()) != set(X) & set(range(n)) or set(s.edges()) != {(a, b) for (a, b) in E if a in X and b in X}: bad.append('subgraph %%s' %% s)
+    if set(s.nodes()) != set(X) & set(u) or set(s.edges()) != {(a, b) for (a, b) in E if a in X and b in X}: bad.append('subgraph %%s' %% s)
 else:
     c = G.clone()
-    if set(c.nodes()) != set(range(n)) or set(c.edges()) != set(E): bad.append('clone %%s' %% c)
+    if set(c.nodes()) != set(u) or set(c.edges()) != set(E): bad.append('clone %%s' %% c)
     c.add_node('fresh')
     for v in list(c.nodes()): c.next(v).add('mut')
 after = {v: set(G.next(v)) for v in G.nodes()}
@@ -298,10 +302,10 @@ print('no violation on this input')
 
 def c13_replay(res):
     n, m = res['n'], res['model']
-    E = [(i, j) for i in range(n) for j in range(n) if m.get('e_%d_%d' % (i, j))]
-    X = [i for i in range(n + 1) if m.get('x_%d' % i)]
-    if res['kind'] == 'reach':
-        X = [i for i in X if i < n]
-    path = write_replay('C13', C13_REPLAY % dict(n=n, E=E, X=X, what=res['kind']))
+    u = list(res.get('univ') or range(n))
+    uu = u + [res.get('out', n)]
+    E = [(u[i], u[j]) for i in range(n) for j in range(n) if m.get('e_%d_%d' % (i, j))]
+    X = [uu[i] for i in range(n + 1) if m.get('x_%d' % i) and (i < n or res['kind'] != 'reach')]
+    path = write_replay('C13', C13_REPLAY % dict(n=n, u=u, E=E, X=X, what=res['kind']))
     ok, out = run_replay(path)
     return (path if ok else None), out
